@@ -48,6 +48,12 @@ def run(ctx):
         oracle += [(t, ["# " + k, "# re-run: ./check C02 --replay " + ctx.replay]) for k, t, _ in o]
         corr += [(k + " " + t, []) for k, t, _ in c]
     else:
+        # regression inputs first: the minimal call sequences of earlier findings
+        cm, cs = seqcommon.run_corpus(ctx)
+        ctx.suites.append(seqcommon.suite_record("corpus", "replay files of corpus/seq (minimal sequences of earlier findings)", cs))
+        co, cc = seqcommon.select(cm, corr=CORR, oracle=ORACLE)
+        oracle += [(t, seqcommon.corpus_lines(p)) for _, t, p in co]
+        corr += [(k + " " + t, seqcommon.corpus_lines(p)) for k, t, p in cc]
         if ctx.quick:
             plan = [((), 4, 2, 160, 150)]
         else:
